@@ -73,9 +73,10 @@ impl CoordIndex {
             });
         });
 
-        index.max_matrix_index = index.direct_index.len().max(1) - 1;
+        // NOTE: location references are used as they are, so not every index has to be used by the problem
+        index.max_matrix_index = index.reverse_index.keys().copied().max().unwrap_or(0);
 
-        let start_offset = index.direct_index.len() * index.direct_index.len();
+        let start_offset = (index.max_matrix_index + 1).pow(2);
         // NOTE promote custom locations to the index to use usize outside
         index.custom_locations.iter().enumerate().for_each(|(offset, location)| {
             debug_assert!(matches!(location, Location::Custom { .. }));
